@@ -1640,9 +1640,10 @@ func (schema *Schema) visitJSONNumber(settings *schemaValidationSettings, value 
 	}
 
 	// "multipleOf"
-	if v := schema.MultipleOf; v != nil {
+	if v := schema.MultipleOf; v != nil && *v != 0 {
 		// "A numeric instance is valid only if division by this keyword's
-		//    value results in an integer."
+		//    value results in an integer." (a zero divisor is not a usable bound:
+		//    0/0 is NaN, which big.NewFloat refuses with a panic)
 		if bigFloat := big.NewFloat(value / *v); !bigFloat.IsInt() {
 			if settings.failfast {
 				return errSchema
